@@ -6,7 +6,7 @@ restored from git afterwards (run tools/runall.sh on the clean tree before commi
 usage: regress_par.py [workers=6]"""
 import os, subprocess, sys, shutil, time, threading, queue, re
 
-ROOT = "/verif"
+ROOT = os.path.dirname(os.path.dirname(os.path.abspath(__file__)))   # the tree this script lives in (a `vp run` snapshot works too)
 N = int(sys.argv[1]) if len(sys.argv) > 1 else 6
 jobs = []
 for d in sorted(os.listdir(os.path.join(ROOT, "seeded"))):
